@@ -148,4 +148,169 @@ theorem editLoop_upsert (k : KI) (hum : k.um = .normal) (hkind : isTreeMode k.mo
           · simp only [hx, if_false]
             exact l3 x qs hx
 
+theorem upsert_none_eq_remove (n : Bytes) (fs : FS) (h0 : fs [] = none) (q : Path) :
+    Spec.C04.upsert [n] none fs q = Spec.C04.remove [n] fs q := by
+  unfold Spec.C04.upsert Spec.C04.remove
+  cases q with
+  | nil => simp [h0]
+  | cons m qs =>
+    by_cases h1 : [n] <+: (m :: qs)
+    · simp [h1]
+    · have h2 : ¬ (m :: qs) <+: [n] := by
+        intro h
+        obtain ⟨hm, hq⟩ := (cons_prefix_singleton _ _ _).1 h
+        subst hm; subst hq
+        exact h1 (List.prefix_refl _)
+      have h3 : ¬ (m :: qs = [n]) := fun h => h1 (h ▸ List.prefix_refl _)
+      simp [h1, h2, h3]
+
+theorem lookupIn_nil_path (ed : Ed) (t : List Entry) (P : Path) : lookupIn ed t P [] = none := rfl
+
+theorem editLoop_remove :
+    ∀ (p : Path), p ≠ [] → (∀ n ∈ p, ValidName n) →
+    ∀ (ed : Ed) (P : Path) (t : List Entry), Inv ed → ed.pathBuf = P → aget P ed.trees = some t →
+      EditOut ed P t (Spec.C04.remove p) (editLoop none ed p) := by
+  intro p
+  induction p with
+  | nil => intro h; exact absurd rfl h
+  | cons n rest ih =>
+    intro _ hvalid ed P t hinv hpb hP
+    have hn : ValidName n := hvalid n (by simp)
+    cases rest with
+    | nil =>
+      obtain ⟨ed', t', hr, hinv', hs, hP', hframe, hsem⟩ := leaf_step_remove hinv hpb hP hn
+      refine ⟨ed', t', ?_, hinv', hs, hP', hframe, ?_⟩
+      · simp [editLoop, nonempty_name hn, hr]
+      · intro q; rw [hsem q]; exact upsert_none_eq_remove n _ rfl q
+    | cons m rest' =>
+      rcases remove_step_down hinv hpb hP hn with ⟨e, hf, hd, hstep⟩ | ⟨hnodir, hstep⟩
+      · obtain ⟨ed1, tn, hdesc, hpb1, hinv1, hs1, hP1, hPn1, hframe1, hsem1⟩ :=
+          descend_dir hinv hpb hP hf hd
+        obtain ⟨ed2, tn2, hr2, hinv2, hs2, hPn2, hframe2, hsem2⟩ :=
+          ih (by simp) (fun x hx => hvalid x (List.mem_cons_of_mem _ hx)) ed1 (P ++ [n]) tn hinv1 hpb1 hPn1
+        have hP2 : aget P ed2.trees = some t := by
+          rw [hframe2 P (not_prefix_append_singleton P n)]; exact hP1
+        obtain ⟨l0, l1, l2, l3⟩ := lookup_down (t := t) (t' := t) hs1 hs2 ⟨e, hf, hd⟩
+          (fun _ _ => rfl) hframe1 hframe2 hPn2
+        refine ⟨ed2, t, ?_, hinv2, hs2.trans hs1, hP2, ?_, ?_⟩
+        · have : editLoop none ed (n :: m :: rest') = editLoop none ed1 (m :: rest') := by
+            rw [editLoop]
+            simp only [nonempty_name hn, Bool.false_eq_true, if_false, List.isEmpty_cons, hstep, hdesc]
+          rw [this]; exact hr2
+        · intro K hK
+          have h1 : ¬ (P ++ [n]) <+: K := fun h => hK ((List.prefix_append P [n]).trans h)
+          rw [hframe2 K h1]
+          apply hframe1
+          · intro h; exact hK (h ▸ List.prefix_refl _)
+          · intro h; exact h1 (h ▸ List.prefix_refl _)
+        · intro q
+          rw [spec_remove_cons n (m :: rest')]
+          cases q with
+          | nil => rfl
+          | cons x qs =>
+            simp only
+            by_cases hx : x = n
+            · subst hx
+              simp only [if_true]
+              by_cases hq : qs = []
+              · subst hq
+                rw [l1]
+                unfold Spec.C04.remove
+                simp [lookupIn, hf, leafOf, hd]
+              · rw [l2 qs hq, hsem2 qs]
+                exact spec_remove_congr _ qs (hsem1 qs hq)
+            · simp only [hx, if_false]
+              exact l3 x qs hx
+      · -- no such directory: nothing happens, and there was nothing to remove
+        refine ⟨ed, t, ?_, hinv, rfl, hP, fun _ _ => rfl, ?_⟩
+        · rw [editLoop]
+          simp only [nonempty_name hn, Bool.false_eq_true, if_false, List.isEmpty_cons, hstep]
+        · intro q
+          unfold Spec.C04.remove
+          by_cases hq : (n :: m :: rest') <+: q
+          · simp only [hq, if_true]
+            obtain ⟨r, rfl⟩ := hq
+            exact lookupIn_cons_nodir hnodir (by simp)
+          · simp [hq]
+
+/-- `cursor_at`: every component is entered in "make sure it is a directory" mode -/
+theorem editLoop_mkdir (k : KI) (hk : k.um = .assureTreeOnly ∧ k.mode = 0o040000 ∧ k.id = nullId) :
+    ∀ (p : Path), p ≠ [] → (∀ n ∈ p, ValidName n) →
+    ∀ (ed : Ed) (P : Path) (t : List Entry), Inv ed → ed.pathBuf = P → aget P ed.trees = some t →
+      ∃ ed' t', editLoop (some k) ed p = .ok ed' ∧ Inv ed' ∧ ed'.store = ed.store ∧
+        aget P ed'.trees = some t' ∧ (∀ K, ¬ P <+: K → aget K ed'.trees = aget K ed.trees) ∧
+        (∀ q, lookupIn ed' t' P q = Spec.C04.mkdir p (lookupIn ed t P) q) ∧
+        ed'.pathBuf = P ++ p ∧ (aget (P ++ p) ed'.trees).isSome = true := by
+  intro p
+  induction p with
+  | nil => intro h; exact absurd rfl h
+  | cons n rest ih =>
+    intro _ hvalid ed P t hinv hpb hP
+    have hn : ValidName n := hvalid n (by simp)
+    cases rest with
+    | nil =>
+      obtain ⟨edS, lookup, ed1, t', tn, hstep, hdesc, hpb1, hinv1, hs1, hP1, hPn1, hdir, hother,
+        hframe1, hsem1⟩ := mkdir_step (isLast := true) hinv hpb hP hn (fun _ => hk)
+      obtain ⟨l0, l1, l2, l3⟩ := lookup_down (ed2 := ed1) (t := t) hs1 rfl hdir hother hframe1
+        (fun _ _ => rfl) hPn1
+      refine ⟨ed1, t', ?_, hinv1, hs1, hP1, ?_, ?_, hpb1, by simp [hPn1]⟩
+      · rw [editLoop]
+        simp only [nonempty_name hn, Bool.false_eq_true, if_false, List.isEmpty_nil, hstep, hdesc]
+        rfl
+      · intro K hK
+        apply hframe1
+        · intro h; exact hK (h ▸ List.prefix_refl _)
+        · intro h; exact hK (h ▸ List.prefix_append P [n])
+      · intro q
+        rw [spec_mkdir_cons n []]
+        cases q with
+        | nil => exact l0
+        | cons x qs =>
+          simp only
+          by_cases hx : x = n
+          · subst hx
+            simp only [if_true]
+            by_cases hq : qs = []
+            · subst hq; rw [l1]; simp [Spec.C04.mkdir]
+            · rw [l2 qs hq, hsem1 qs hq]
+              have : ¬ qs <+: [] := fun h => hq (List.prefix_nil.1 h)
+              simp [Spec.C04.mkdir, this]
+          · simp only [hx, if_false]
+            exact l3 x qs hx
+    | cons m rest' =>
+      have hk' : MkdirMode false k := by intro h; cases h
+      obtain ⟨edS, lookup, ed1, t', tn, hstep, hdesc, hpb1, hinv1, hs1, hP1, hPn1, hdir, hother,
+        hframe1, hsem1⟩ := mkdir_step hinv hpb hP hn hk'
+      obtain ⟨ed2, tn2, hr2, hinv2, hs2, hPn2, hframe2, hsem2, hpb2, hc2⟩ :=
+        ih (by simp) (fun x hx => hvalid x (List.mem_cons_of_mem _ hx)) ed1 (P ++ [n]) tn hinv1 hpb1 hPn1
+      have hP2 : aget P ed2.trees = some t' := by
+        rw [hframe2 P (not_prefix_append_singleton P n)]; exact hP1
+      obtain ⟨l0, l1, l2, l3⟩ := lookup_down (t := t) hs1 hs2 hdir hother hframe1 hframe2 hPn2
+      refine ⟨ed2, t', ?_, hinv2, hs2.trans hs1, hP2, ?_, ?_, by simpa using hpb2, by simpa using hc2⟩
+      · have : editLoop (some k) ed (n :: m :: rest') = editLoop (some k) ed1 (m :: rest') := by
+          rw [editLoop]
+          simp only [nonempty_name hn, Bool.false_eq_true, if_false, List.isEmpty_cons, hstep, hdesc]
+        rw [this]; exact hr2
+      · intro K hK
+        have h1 : ¬ (P ++ [n]) <+: K := fun h => hK ((List.prefix_append P [n]).trans h)
+        rw [hframe2 K h1]
+        apply hframe1
+        · intro h; exact hK (h ▸ List.prefix_refl _)
+        · intro h; exact h1 (h ▸ List.prefix_refl _)
+      · intro q
+        rw [spec_mkdir_cons n (m :: rest')]
+        cases q with
+        | nil => exact l0
+        | cons x qs =>
+          simp only
+          by_cases hx : x = n
+          · subst hx
+            simp only [if_true]
+            by_cases hq : qs = []
+            · subst hq; rw [l1]; simp [Spec.C04.mkdir]
+            · rw [l2 qs hq, hsem2 qs]
+              exact spec_mkdir_congr _ qs (hsem1 qs hq)
+          · simp only [hx, if_false]
+            exact l3 x qs hx
+
 end GixModel.C04
